@@ -355,4 +355,334 @@ theorem run_never_stuck_of_inv (s : St) (hi : Inv s) (hr : s.run ≠ .idle) (hnr
   | cancelCall r => exact key (.rCancelDecide true) (Or.inl rfl) (by simp [step, hrun])
   | cancelSend r p => exact key .rCancelSend (Or.inl rfl) (by simp only [step, hrun]; split <;> simp)
 
+/-! ### what `Run` reports -/
+
+def RunPc.cancelRet : RunPc → Option Ret
+  | .cancelCall r => some r | .cancelSend r _ => some r | .waitComplete r _ => some r | _ => none
+
+/-- what is on `Complete`, and what `Run` took from it, is `cancelled` or the handler's own result. -/
+structure Inv2 (s : St) : Prop where
+  q : ∀ e ∈ s.qC, e = .cancelled ∨ s.hdl = .done e
+  got : ∀ e, (s.run = .gotComplete (.err e) ∨ s.run = .returned (.err e)) → e = .cancelled ∨ s.hdl = .done e
+  conf : (s.hdl = .sendComplete .ok ∨ s.hdl = .done .ok ∨ s.hdl = .confirming) → s.confirmed = true
+  noErr : ∀ r, s.run.cancelRet = some r → r = .interrupted ∨ r = .timeout
+  fl : ∀ e, s.hdl = .flush e → e ≠ .ok
+
+theorem inv2_init (hc : Bool) : Inv2 (init hc) := by
+  constructor <;> simp [init, RunPc.cancelRet]
+
+macro "step_inv2" h:ident hi:ident : tactic => `(tactic| (
+  simp only [step] at $h:ident
+  repeat' (split at $h:ident)
+  all_goals (first | (exact Outcome.noConfusion $h:ident) | (simp only [Outcome.next.injEq] at $h:ident; subst $h:ident))
+  all_goals (
+    obtain ⟨a1,a2,a3,a4,a5⟩ := $hi
+    constructor <;> simp_all [RunPc.cancelRet] <;> (try assumption) <;> (try grind))))
+
+theorem inv2_hdl (s : St) (pc : HPc) (hi : Inv2 s) (hnd : ∀ e, s.hdl ≠ .done e)
+    (h1 : pc = .sendComplete .ok ∨ pc = .done .ok ∨ pc = .confirming → s.confirmed = true)
+    (h2 : ∀ e, pc = .flush e → e ≠ .ok) : Inv2 { s with hdl := pc } := by
+  obtain ⟨a1,a2,a3,a4,a5⟩ := hi
+  refine ⟨?_, ?_, h1, a4, h2⟩
+  · intro e he
+    rcases a1 e he with h | h
+    · exact Or.inl h
+    · exact absurd h (hnd e)
+  · intro e he
+    rcases a2 e he with h | h
+    · exact Or.inl h
+    · exact absurd h (hnd e)
+
+/-- a step that only moves `Run` (and touches fields the invariant does not read). -/
+theorem inv2_runOnly (s s' : St) (hi : Inv2 s) (hq : s'.qC = s.qC) (hh : s'.hdl = s.hdl) (hc : s'.confirmed = s.confirmed)
+    (hgot : ∀ e, (s'.run = .gotComplete (.err e) ∨ s'.run = .returned (.err e)) → e = .cancelled ∨ s.hdl = .done e)
+    (hne : ∀ r, s'.run.cancelRet = some r → r = .interrupted ∨ r = .timeout) : Inv2 s' := by
+  obtain ⟨a1,a2,a3,a4,a5⟩ := hi
+  refine ⟨by rw [hq, hh]; exact a1, by rw [hh]; exact hgot, by rw [hh, hc]; exact a3, hne, by rw [hh]; exact a5⟩
+
+theorem inv2_step (s s' : St) (l : Label) (h : step s l = .next s') (hi : Inv2 s) : Inv2 s' := by
+  cases l with
+  | cancel ans =>
+    simp only [step] at h
+    rcases cancelDecide_cases s ans with ⟨_, hd⟩ | ⟨_, _, hd⟩ <;> rw [hd] at h <;>
+      simp only [Outcome.next.injEq] at h <;> subst h <;> obtain ⟨a1,a2,a3,a4,a5⟩ := hi <;>
+      unfold addCaller <;> split <;> constructor <;> simp_all [RunPc.cancelRet]
+  | stop =>
+    simp only [step] at h
+    rcases stopDecide_cases s with ⟨_, hd⟩ | ⟨_, _, hd⟩ <;> rw [hd] at h <;>
+      simp only [Outcome.next.injEq] at h <;> subst h <;> obtain ⟨a1,a2,a3,a4,a5⟩ := hi <;>
+      unfold addCaller <;> split <;> constructor <;> simp_all [RunPc.cancelRet]
+  | callerSend i =>
+    simp only [step] at h
+    split at h
+    · exact Outcome.noConfusion h
+    · rename_i p hp
+      rcases sendPend_cases s p with ⟨_, _, hd⟩ | ⟨hd, _⟩ | ⟨_, _, hd⟩ | ⟨_, _, _, hd⟩ <;> rw [hd] at h
+      · exact Outcome.noConfusion h
+      · exact Outcome.noConfusion h
+      · simp only [Outcome.next.injEq] at h; subst h
+        obtain ⟨a1,a2,a3,a4,a5⟩ := hi
+        constructor <;> simp_all [RunPc.cancelRet]
+      · simp only [Outcome.next.injEq] at h; subst h
+        obtain ⟨a1,a2,a3,a4,a5⟩ := hi
+        constructor <;> simp_all [RunPc.cancelRet]
+        intro e he
+        rcases he with he | he
+        · exact a1 e he
+        · exact Or.inl he
+  | rCancelDecide ans =>
+    simp only [step] at h
+    split at h
+    · rcases cancelDecide_cases s ans with ⟨_, hd⟩ | ⟨_, _, hd⟩ <;> rw [hd] at h <;>
+        simp only [Outcome.next.injEq] at h <;> subst h <;> obtain ⟨a1,a2,a3,a4,a5⟩ := hi <;>
+        constructor <;> simp_all [RunPc.cancelRet]
+    · exact Outcome.noConfusion h
+  | rCancelSend =>
+    simp only [step] at h
+    split at h
+    · rename_i r p hr
+      rcases sendPend_cases s p with ⟨_, _, hd⟩ | ⟨hd, _⟩ | ⟨_, _, hd⟩ | ⟨_, _, _, hd⟩ <;> rw [hd] at h
+      · simp only [Outcome.next.injEq] at h; subst h
+        obtain ⟨a1,a2,a3,a4,a5⟩ := hi
+        constructor <;> simp_all [RunPc.cancelRet]
+      · exact Outcome.noConfusion h
+      · simp only [Outcome.next.injEq] at h; subst h
+        obtain ⟨a1,a2,a3,a4,a5⟩ := hi
+        constructor <;> simp_all [RunPc.cancelRet]
+      · simp only [Outcome.next.injEq] at h; subst h
+        obtain ⟨a1,a2,a3,a4,a5⟩ := hi
+        constructor <;> simp_all [RunPc.cancelRet]
+        intro e he
+        rcases he with he | he
+        · exact a1 e he
+        · exact Or.inl he
+    · exact Outcome.noConfusion h
+  | run =>
+    simp only [step] at h
+    split at h
+    · simp only [Outcome.next.injEq] at h; subst h
+      exact inv2_runOnly s _ hi rfl rfl rfl (by simp) (by simp [RunPc.cancelRet])
+    · exact Outcome.noConfusion h
+  | intr =>
+    simp only [step, Outcome.next.injEq] at h; subst h
+    exact inv2_runOnly s _ hi rfl rfl rfl hi.got hi.noErr
+  | hStart w n r => step_inv2 h hi
+  | hTx b => cases b <;> step_inv2 h hi
+  | hEos => step_inv2 h hi
+  | hConfirm b => cases b <;> step_inv2 h hi
+  | hSendStarted => step_inv2 h hi
+  | hCheck1 =>
+    simp only [step] at h
+    split at h
+    · rename_i hh
+      split at h
+      · simp only [Outcome.next.injEq] at h; subst h
+        exact inv2_hdl s _ hi (by simp [hh]) (by simp) (by simp)
+      · split at h
+        · simp only [Outcome.next.injEq] at h; subst h
+          exact inv2_hdl s _ hi (by simp [hh]) (by simp) (by simp)
+        · simp only [Outcome.next.injEq] at h; subst h
+          exact inv2_hdl s _ hi (by simp [hh]) (by simp) (by simp)
+    · exact Outcome.noConfusion h
+  | hAfterTx =>
+    simp only [step] at h
+    split at h
+    · rename_i i hh
+      split at h
+      · simp only [Outcome.next.injEq] at h; subst h
+        exact inv2_hdl s _ hi (by simp [hh]) (by simp) (by simp)
+      · simp only [Outcome.next.injEq] at h; subst h
+        exact inv2_hdl s _ hi (by simp [hh]) (by simp) (by simp)
+    · exact Outcome.noConfusion h
+  | hFinalCheck => step_inv2 h hi
+  | hSendComplete =>
+    simp only [step] at h
+    split at h
+    · rename_i e hh
+      split at h
+      · simp only [Outcome.next.injEq] at h; subst h
+        obtain ⟨a1,a2,a3,a4,a5⟩ := hi
+        refine ⟨?_, ?_, ?_, a4, by simp⟩
+        · intro x hx
+          simp only [List.mem_append, List.mem_singleton] at hx
+          rcases hx with hx | rfl
+          · rcases a1 x hx with h1 | h1
+            · exact Or.inl h1
+            · rw [hh] at h1; cases h1
+          · exact Or.inr rfl
+        · intro x hx
+          rcases a2 x hx with h1 | h1
+          · exact Or.inl h1
+          · rw [hh] at h1; cases h1
+        · intro hx
+          simp only [HPc.done.injEq, reduceCtorEq, false_or, or_false] at hx
+          exact a3 (Or.inl (by rw [hh, hx]))
+      · exact Outcome.noConfusion h
+    · exact Outcome.noConfusion h
+  | rRecvStarted =>
+    simp only [step] at h
+    split at h
+    · simp only [Outcome.next.injEq] at h; subst h
+      exact inv2_runOnly s _ hi rfl rfl rfl (by simp) (by simp [RunPc.cancelRet])
+    · exact Outcome.noConfusion h
+  | rSetStarted =>
+    simp only [step] at h
+    split at h
+    · simp only [Outcome.next.injEq] at h; subst h
+      exact inv2_runOnly s _ hi rfl rfl rfl (by simp) (by simp [RunPc.cancelRet])
+    · exact Outcome.noConfusion h
+  | rRecvComplete => step_inv2 h hi
+  | rSetComplete => step_inv2 h hi
+  | rIntr => step_inv2 h hi
+  | rTimeout =>
+    simp only [step] at h
+    split at h
+    · simp only [Outcome.next.injEq] at h; subst h
+      exact inv2_runOnly s _ hi rfl rfl rfl (by simp) (by simp [RunPc.cancelRet])
+    · simp only [Outcome.next.injEq] at h; subst h
+      exact inv2_runOnly s _ hi rfl rfl rfl (by simp) (by simp [RunPc.cancelRet])
+    · rename_i r k hr
+      have hne := hi.noErr r (by simp [hr, RunPc.cancelRet])
+      split at h
+      · simp only [Outcome.next.injEq] at h; subst h
+        refine inv2_runOnly s _ hi rfl rfl rfl ?_ (by simp [RunPc.cancelRet])
+        intro e he
+        simp only [reduceCtorEq, RunPc.returned.injEq, false_or] at he
+        rcases hne with h1 | h1 <;> rw [h1] at he <;> cases he
+      · simp only [Outcome.next.injEq] at h; subst h
+        exact inv2_runOnly s _ hi rfl rfl rfl (by simp) (by simpa [RunPc.cancelRet] using hne)
+    · exact Outcome.noConfusion h
+
+theorem inv2_reach (s : St) (h : Reach s) : Inv2 s := by
+  induction h with
+  | init hc => exact inv2_init hc
+  | step l _ hst ih => exact inv2_step _ _ l hst ih
+
+theorem run_ok_sound (s : St) (hi : Inv2 s) (hr : s.run = .returned (.err .ok)) :
+    s.hdl = .done .ok ∧ s.confirmed = true := by
+  have := hi.got .ok (Or.inr hr)
+  rcases this with h | h
+  · cases h
+  · exact ⟨h, hi.conf (Or.inr (Or.inl h))⟩
+
+
+/-! ### every schedule is finite -/
+
+def runRank : RunPc → Nat
+  | .idle => Facts.cancelWaitLimit + 40
+  | .phase1 => Facts.cancelWaitLimit + 38
+  | .gotStarted => Facts.cancelWaitLimit + 36
+  | .phase2 => Facts.cancelWaitLimit + 34
+  | .cancelCall _ => Facts.cancelWaitLimit + 30
+  | .cancelSend _ p => Facts.cancelWaitLimit + 24 + 2 * (b2n p.s + b2n p.c)
+  | .waitComplete _ k => 10 + (Facts.cancelWaitLimit - k)
+  | .gotComplete _ => 5
+  | .returned _ => 0
+
+def hdlRank : HPc → Nat
+  | .idle => 20 | .sendStarted => 18 | .check1 => 16 | .afterTx _ => 15 | .loop _ => 14 | .flush _ => 12
+  | .finalCheck => 10 | .confirming => 8 | .sendComplete _ => 4 | .done _ => 0
+
+/-- a measure that every transition except the arrival of a transaction decreases (or leaves the
+    state unchanged). -/
+def mu (s : St) : Nat :=
+  runRank s.run + hdlRank s.hdl + 2 * (cntS s.callers + cntC s.callers) + s.qS.length + s.qC.length +
+    (if s.cancelled then 0 else 5) + (if s.intr then 0 else 1)
+
+theorem intr_eta (s : St) (h : s.intr = true) : { s with intr := true } = s := by
+  cases s; simp_all
+
+macro "step_mu" h:ident : tactic => `(tactic| (
+  simp only [step] at $h:ident
+  repeat' (split at $h:ident)
+  all_goals (first | (exact Outcome.noConfusion $h:ident) | (simp only [Outcome.next.injEq] at $h:ident; subst $h:ident))
+  all_goals (right; simp_all [mu, runRank, hdlRank, b2n] <;> omega)))
+
+theorem step_decreases (s s' : St) (l : Label) (h : step s l = .next s') (hl : ∀ b, l ≠ .hTx b) :
+    s' = s ∨ mu s' < mu s := by
+  cases l with
+  | hTx b => exact absurd rfl (hl b)
+  | intr =>
+    simp only [step, Outcome.next.injEq] at h; subst h
+    cases hi : s.intr
+    · right; simp [mu, hi]
+    · left; exact intr_eta s hi
+  | cancel ans =>
+    simp only [step] at h
+    rcases cancelDecide_cases s ans with ⟨_, hd⟩ | ⟨_, hcan, hd⟩ <;> rw [hd] at h <;>
+      simp only [Outcome.next.injEq] at h <;> subst h
+    · left; exact addCaller_empty s
+    · right
+      unfold addCaller
+      cases hs : s.started <;> cases hc : s.hasCanceller <;> cases ans <;>
+        simp [mu, Pend.isEmpty, hcan, cntS_append, cntC_append, cntS, cntC, b2n] <;> omega
+  | stop =>
+    simp only [step] at h
+    rcases stopDecide_cases s with ⟨_, hd⟩ | ⟨_, hcan, hd⟩ <;> rw [hd] at h <;>
+      simp only [Outcome.next.injEq] at h <;> subst h
+    · left; exact addCaller_empty s
+    · right
+      unfold addCaller
+      cases hs : s.started <;>
+        simp [mu, Pend.isEmpty, hcan, cntS_append, cntC_append, cntS, cntC, b2n] <;> omega
+  | callerSend i =>
+    simp only [step] at h
+    split at h
+    · exact Outcome.noConfusion h
+    · rename_i p hp
+      rcases sendPend_cases s p with ⟨_, _, hd⟩ | ⟨hd, _⟩ | ⟨h1, _, hd⟩ | ⟨h1, h2, _, hd⟩ <;> rw [hd] at h
+      · exact Outcome.noConfusion h
+      · exact Outcome.noConfusion h
+      · simp only [Outcome.next.injEq] at h; subst h
+        have hS := cntS_set s.callers i p { p with s := false } hp
+        have hC := cntC_set s.callers i p { p with s := false } hp
+        right
+        simp [mu, b2n, h1] at hS hC ⊢
+        omega
+      · simp only [Outcome.next.injEq] at h; subst h
+        have hS := cntS_set s.callers i p { p with c := false } hp
+        have hC := cntC_set s.callers i p { p with c := false } hp
+        right
+        simp [mu, b2n, h1, h2] at hS hC ⊢
+        omega
+  | rCancelDecide ans =>
+    simp only [step] at h
+    split at h
+    · rename_i r hr
+      rcases cancelDecide_cases s ans with ⟨_, hd⟩ | ⟨_, hcan, hd⟩ <;> rw [hd] at h <;>
+        simp only [Outcome.next.injEq] at h <;> subst h <;> right
+      · simp [mu, runRank, hr, b2n]
+      · cases hs : s.started <;> cases hc : s.hasCanceller <;> cases ans <;>
+          simp [mu, runRank, hr, hcan, b2n] <;> omega
+    · exact Outcome.noConfusion h
+  | rCancelSend =>
+    simp only [step] at h
+    split at h
+    · rename_i r p hr
+      rcases sendPend_cases s p with ⟨h1, h2, hd⟩ | ⟨hd, _⟩ | ⟨h1, _, hd⟩ | ⟨h1, h2, _, hd⟩ <;> rw [hd] at h
+      · simp only [Outcome.next.injEq] at h; subst h
+        right; simp [mu, runRank, hr, b2n, h1, h2]; omega
+      · exact Outcome.noConfusion h
+      · simp only [Outcome.next.injEq] at h; subst h
+        right; cases hpc : p.c <;> simp [mu, runRank, hr, b2n, h1, hpc] <;> omega
+      · simp only [Outcome.next.injEq] at h; subst h
+        right; simp [mu, runRank, hr, b2n, h1, h2]; omega
+    · exact Outcome.noConfusion h
+  | run => step_mu h
+  | hStart w n r => step_mu h
+  | hEos => step_mu h
+  | hConfirm b => step_mu h
+  | hSendStarted => step_mu h
+  | hCheck1 => step_mu h
+  | hAfterTx => step_mu h
+  | hFinalCheck => step_mu h
+  | hSendComplete => step_mu h
+  | rRecvStarted => step_mu h
+  | rSetStarted => step_mu h
+  | rRecvComplete => step_mu h
+  | rSetComplete => step_mu h
+  | rIntr => step_mu h
+  | rTimeout => step_mu h
+
+
 end BRV.BlockDl
